@@ -169,6 +169,9 @@ func (sg *smlGen) item(depth int, vars bool) []string {
 				body = append(body, sg.varName())
 			} else {
 				c := g.pick(256)
+				if g.chance(0.08) {
+					c = 256 + g.pick(400) // refused, and refused alike however it is spelled
+				}
 				body = append(body, intSpelling(g, int64(c), false, uint64(c)))
 			}
 			count++
@@ -316,6 +319,17 @@ func layout(g *Gen, toks []string, st layoutStyle) string {
 			} else if !touch {
 				sb.WriteString(sep)
 			}
+		}
+		if strings.HasPrefix(t, "[") && !strings.EqualFold(t, "[w]") && len(st.seps) > 1 && g.chance(0.5) {
+			// a size declaration may hold white space of any kind around its parts
+			ws := func() string { return []string{"", " ", "\t", "\n", "\r\n", " \r\n "}[g.pick(6)] }
+			inner := strings.TrimSpace(t[1 : len(t)-1])
+			parts := strings.SplitN(inner, "..", 2)
+			t = "[" + ws() + strings.TrimSpace(parts[0])
+			if len(parts) == 2 {
+				t += ws() + ".." + ws() + strings.TrimSpace(parts[1])
+			}
+			t += ws() + "]"
 		}
 		sb.WriteString(t)
 		if t == "<" {
@@ -537,6 +551,28 @@ func suiteC05(c *Ctx) {
 		}
 		emit(fmt.Sprintf("S1F1 <F4 %s> .", lit), exp, "float32 midpoint")
 	}
+	// the same literal in items of both widths, in either order, in one text
+	for i := 0; i < c.scale(150, 3000); i++ {
+		lit := floatSpelling(g, false)
+		v4, e4 := strconv.ParseFloat(lit, 32)
+		v8, e8 := strconv.ParseFloat(lit, 64)
+		if e4 != nil || e8 != nil {
+			continue
+		}
+		first4 := g.chance(0.5)
+		var text string
+		var exp ast.ItemNode
+		if first4 {
+			text = fmt.Sprintf("S1F1 <L <F4 %s> <F8 %s %s>> .", lit, lit, lit)
+			exp = mk(func() ast.ItemNode { return ast.NewListNode(ast.NewFloatNode(4, v4), ast.NewFloatNode(8, v8, v8)) })
+		} else {
+			text = fmt.Sprintf("S1F1 <L <F8 %s> <F4 %s> <F8 %s>> .", lit, lit, lit)
+			exp = mk(func() ast.ItemNode {
+				return ast.NewListNode(ast.NewFloatNode(8, v8), ast.NewFloatNode(4, v4), ast.NewFloatNode(8, v8))
+			})
+		}
+		emit(text, exp, "same literal at both widths")
+	}
 	for _, bad := range []string{"T", `"1.0"`, "0x10", "1e", "1e+", "--1", "1e3e3", "0b1", "nan", "inf"} {
 		if bad == "nan" || bad == "inf" {
 			continue // variable names
@@ -638,6 +674,37 @@ func suiteC15(c *Ctx) {
 						add(fmt.Sprintf("%s [ %d ..\t%d ] %s> .", pre, lo, lo+1, elems[ty](n)), !(lo <= n && n <= lo+1), col+1)
 					}
 				}
+			}
+		}
+	}
+	flush()
+	// bounds are decimal numbers: leading zeros do not make them octal
+	for _, ty := range []string{"A", "U1", "L", "B"} {
+		pre := "S1F1 <" + ty
+		col := len(pre) + 1
+		for n := 0; n <= 11; n++ {
+			add(fmt.Sprintf("%s[010] %s> .", pre, elems[ty](n)), n != 10, col)
+			add(fmt.Sprintf("%s[08] %s> .", pre, elems[ty](n)), n != 8, col)
+			add(fmt.Sprintf("%s[..09] %s> .", pre, elems[ty](n)), n > 9, col)
+			add(fmt.Sprintf("%s[007..010] %s> .", pre, elems[ty](n)), !(7 <= n && n <= 10), col)
+			add(fmt.Sprintf("%s[09..] %s> .", pre, elems[ty](n)), n < 9, col)
+		}
+	}
+	flush()
+	// an element that is a variable still counts
+	for _, ty := range []string{"U1", "I2", "B", "BOOLEAN", "F4", "L"} {
+		pre := "S1F1 <" + ty
+		col := len(pre) + 1
+		for lo := 0; lo <= 3; lo++ {
+			for n := 0; n <= 3; n++ {
+				body := elems[ty](n) + " vx"
+				if ty == "L" {
+					body = elems[ty](n) + " <A vx> <U1 vy>"
+					add(fmt.Sprintf("%s[%d] %s> .", pre, lo, body), n+2 != lo, col)
+					continue
+				}
+				add(fmt.Sprintf("%s[%d] %s> .", pre, lo, body), n+1 != lo, col)
+				add(fmt.Sprintf("%s[..%d] %s vz> .", pre, lo, body), n+2 > lo, col)
 			}
 		}
 	}
@@ -856,6 +923,16 @@ func suiteC06(c *Ctx) {
 		c06Expected[text] = c06Expect{k, gap, frag}
 		c.emit(Case{"between", []Step{smlStep(text)}, false})
 	}
+	// every Unicode space, and a few look-alikes, at every place of an otherwise complete message
+	for _, r := range []rune{'\t', '\n', '\v', '\f', '\r', ' ', 0x85, 0xA0, 0x1680, 0x2000, 0x2001, 0x2005, 0x200A, 0x2028, 0x2029, 0x202F, 0x205F, 0x3000,
+		0x200B, 0x2060, 0xFEFF, 0x180E, 0x1C, 0x1F, 0x7F, 0xAD} {
+		sp := string(r)
+		for _, tpl := range []string{"S1F1 H->E lot%sid .", "S1F1 H->E lot%s .", "S1F1 H->E %slot .", "S1F1 W lot%sid <A \"x\"> .", "S1F1 lot%s<U1 1> .",
+			"S1F1%sW H->E n .", "S1F1 H->E n <L%s<A \"x\">%s> .", "S1F1 H->E a%sb%sc .\nS2F2 H<-E x%s ."} {
+			c.emit(Case{"spaces-in-header", []Step{smlStep(strings.ReplaceAll(tpl, "%s", sp))}, false})
+		}
+		c.emit(Case{"spaces-in-header", []Step{smlStep("S1F1 H->E lot" + sp[:1] + " .")}, false}) // cut inside the rune
+	}
 	n := c.scale(3000, 150000)
 	for i := 0; i < n; i++ {
 		var text string
@@ -890,6 +967,10 @@ func suiteC06(c *Ctx) {
 func monitorC06(c *Ctx, id string, cs Case, e *Exec, final []string) {
 	text := string(cs.Steps[0].S)
 	c.stats["monitor:texts"]++
+	if _, isHung := e.Pool[0].(hung); isHung {
+		c.hit(id, cs, "parse-does-not-return", fmt.Sprintf("%q: no result after 20 s", short(text)))
+		return
+	}
 	res, ok := e.Pool[0].(smlRes)
 	if !ok {
 		c.hit(id, cs, "panic-escaped", fmt.Sprintf("%q: %v", short(text), e.Pool[0]))
@@ -1008,6 +1089,24 @@ func cmdHostileSml(args []string) {
 func suiteC08(c *Ctx) {
 	g := c.gen()
 	n := c.scale(1500, 100000)
+	// literals that are refused are refused alike in either letter case and any layout
+	for _, ty := range []string{"B", "U1", "I1", "U8", "I8", "F4", "BOOLEAN"} {
+		for _, lit := range []string{"0b100000000", "0b", "0b1.1", "0b1e2", "0b2", "0b11111111", "0x100", "0xff", "0x", "0xg", "0o400", "0o377", "0o8", "0o",
+			"256", "1e3", "1e400", "0x1p4", "0b1 0b100000001", "0xffffffffffffffffff", "-0x81", "-0b10000001", "t", "f"} {
+			toks := []string{"s1f1", "<", ty}
+			toks = append(toks, strings.Fields(lit)...)
+			toks = append(toks, ">", ".")
+			lo := make([]string, len(toks))
+			up := make([]string, len(toks))
+			for j, t := range toks {
+				lo[j], up[j] = strings.ToLower(t), strings.ToUpper(t)
+			}
+			a := layout(g, lo, layoutStyles[0])
+			b := layout(g, lo, layoutStyles[1+g.pick(len(layoutStyles)-1)])
+			cc := layout(g, up, layoutStyles[0])
+			c.emit(Case{"refused-literals", []Step{smlStep(a), smlStep(b), smlStep(cc), lexStep(a), lexStep(b)}, false})
+		}
+	}
 	for i := 0; i < n; i++ {
 		sg := &smlGen{g: g}
 		var toks []string
@@ -1037,10 +1136,11 @@ func suiteC08(c *Ctx) {
 		b := layout(g, toks, st)
 		// letter case of keywords, type names, number prefixes
 		up := make([]string, len(toks))
+		mode := g.pick(3) // every such token in upper case, in lower case, or letter by letter
 		for j, t := range toks {
 			up[j] = t
-			if g.chance(0.5) {
-				up[j] = recase(g, t)
+			if mode < 2 || g.chance(0.5) {
+				up[j] = recase(g, t, mode)
 			}
 		}
 		cc := layout(g, up, layoutStyles[0])
@@ -1049,7 +1149,7 @@ func suiteC08(c *Ctx) {
 }
 
 // recase changes the letter case of a keyword, type name, boolean, or number prefix / hex digits / exponent
-func recase(g *Gen, t string) string {
+func recase(g *Gen, t string, mode int) string {
 	u := strings.ToUpper(t)
 	isKw := false
 	for _, k := range append(append([]string{}, smlTypes...), "T", "F", "W", "[W]", "H->E", "H<-E", "H<->E") {
@@ -1063,6 +1163,12 @@ func recase(g *Gen, t string) string {
 	isNum := len(t) > 0 && (t[0] >= '0' && t[0] <= '9' || t[0] == '-' || t[0] == '+' || t[0] == '.') && !strings.HasPrefix(t, "...")
 	if !isKw && !isNum {
 		return t
+	}
+	if mode == 0 {
+		return strings.ToUpper(t)
+	}
+	if mode == 1 {
+		return strings.ToLower(t)
 	}
 	b := []byte(t)
 	for i := range b {
@@ -1243,7 +1349,7 @@ func monitorC19(c *Ctx, id string, cs Case, e *Exec, final []string) {
 // ---------- C04: print -> parse ----------
 
 // names the header lexer reads as one name (and not as another token)
-var c04Names = []string{"", "Name", "AreYouThere", "établi", "名前", "a.b", "x-1", "N/A", "q\"uote", "a<b", "b>c", "R2D2", "_", "E5", "Ünïcode", "a/b", "100%", "#1", "(x)", "{y}", "x,y", "é"}
+var c04Names = []string{"", "Ver.", "a.b.", "x..", "Name", "AreYouThere", "établi", "名前", "a.b", "x-1", "N/A", "q\"uote", "a<b", "b>c", "R2D2", "_", "E5", "Ünïcode", "a/b", "100%", "#1", "(x)", "{y}", "x,y", "é"}
 
 func suiteC04(c *Ctx) {
 	n := c.scale(1500, 100000)
